@@ -53,6 +53,7 @@ def run(ctx):
     type_structures(ctx, 150 if quick else 1500)
     every_alias(ctx)
     expression_spellings(ctx)
+    inline_union_orders(ctx)
     imported_generic_orders(ctx)
     for k in range(4 if quick else 24):
         ns = "Sp" + "abcdefghijklmnopqrstuvwxyz"[k % 26] + ("x" * (k // 26))
@@ -135,6 +136,39 @@ def expression_spellings(ctx):
             diff = sorted(f for f in set(tr) | set(base[2]) if tr.get(f) != base[2].get(f))
             ctx.report("different-code:expression-" + style, "the %s spelling of computed-field expressions generates different code "
                        "(%d files differ: %s)" % (style, len(diff), diff[:4]), dict(rep, files_differ=diff[:20]))
+
+
+def inline_union_orders(ctx):
+    """the same inline `!union {tag: type}` used as the item type of a vector / stream / map and as a plain field, in definitions
+    that do not depend on each other: the order of the definitions (and their distribution over files) is not part of the model"""
+    u = "!union {count: int32, ratio: float32}"
+    a = "Series: !record\n  fields:\n    points: !vector {items: %s}\n    byName: !map {keys: string, values: %s}\n" % (u, u)
+    b = "Single: !record\n  fields:\n    point: %s\n    n: int32\n" % u
+    p = "Pq: !protocol\n  sequence:\n    s: Series\n    t: Single\n    u: !stream {items: %s}\n" % u
+    variants = {"container-first": {"model.yml": a + "\n" + b + "\n" + p}, "scalar-first": {"model.yml": b + "\n" + a + "\n" + p},
+                "protocol-first": {"model.yml": p + "\n" + a + "\n" + b},
+                "split": {"a_series.yml": a, "b_single.yml": b, "c_proto.yml": p}, "split-reversed": {"z_series.yml": a, "b_single.yml": b, "a_proto.yml": p}}
+    res = {}
+    for name, files in variants.items():
+        d = os.path.join(ctx.scratch, "unionorders", name)
+        os.makedirs(d + "/model")
+        open(d + "/model/_package.yml", "w").write("namespace: Uo\n%s" % CFG)
+        for fn, text in files.items():
+            open(os.path.join(d, "model", fn), "w").write(text)
+        rc, o, e = sh([ctx.yardl, "generate"], cwd=d + "/model", timeout=120)
+        res[name] = (rc, (o + e)[-600:], schemas(d + "/out", "uo") if rc == 0 else {})
+    base = res["scalar-first"]
+    for name, (rc, out, sc) in res.items():
+        ctx.case(("inline-union-order", name), sample={"crafted": "one inline !union in a container and as a scalar", "order": name, "accepted": rc == 0,
+                                                       "identical_schemas": sc == base[2]})
+        rep = {"order": name, "files": variants[name], "reference_order": variants["scalar-first"]}
+        if (rc == 0) != (base[0] == 0):
+            ctx.report("rejected-spelling:definition-order", "a model that uses one inline !union both inside a container and as a plain field is %s in "
+                       "the order '%s' and %s in the order 'scalar-first': %s" % ("accepted" if rc == 0 else "rejected", name,
+                                                                                  "accepted" if base[0] == 0 else "rejected", (out if rc else base[1])[-300:]),
+                       dict(rep, output=out, reference_output=base[1]))
+        elif rc == 0 and sc != base[2]:
+            ctx.report("different-schema:definition-order", "the order '%s' of the definitions changes the embedded schema" % name, rep)
 
 
 def every_alias(ctx):
